@@ -286,7 +286,16 @@ class Facts:
                 if rb.is_len(b):
                     self.len_ge = max(self.len_ge, 1)
         elif op == "eq":
-            pass
+            if rb.is_len(a) and const_int(b) is not None:
+                self.len_eq = const_int(b)
+                self.len_ge = max(self.len_ge, const_int(b))
+            if rb.is_len(b) and const_int(a) is not None:
+                self.len_eq = const_int(a)
+                self.len_ge = max(self.len_ge, const_int(a))
+        if op == "lt" and rb.is_len(a) and const_int(b) is not None:
+            self.len_le = const_int(b) - 1
+        if op == "le" and rb.is_len(a) and const_int(b) is not None:
+            self.len_le = const_int(b)
         # `len <= 1` false  =>  len >= 2 ; `len > 1`
         if op == "lt" and const_int(a) is not None and rb.is_len(b):
             self.len_ge = max(self.len_ge, const_int(a) + 1)
